@@ -1051,6 +1051,37 @@ def r11_9(prog, rep, rid="R11.9"):
         rep.ok(rid, key, f.loc(reached[0][0]), "with a task found under the UID no path reaches make_task()")
 
 
+def r11_10(prog, rep, rid="R11.10"):
+    """Everything the daemon does per user — listing, checkpoint, replace, cancel — finds a task's user through the owner slot of the task
+    itself, as a number.  The submission path therefore overwrites whatever the submitted task says about its owner with the uid of
+    the authenticated peer, unconditionally, before the task is bound into the record: a task that keeps a *name* there is owned by
+    nobody — accepted, run, and out of everybody's reach."""
+    from ..flow import must_pass
+    f = prog.fn("_inject_task1", DAEMON)
+    cfg = f.cfg
+    tparam = f.params[-2]["n"] if len(f.params) >= 2 else None
+    binds = []
+    for b, i, x, line in cfg.all_elems():
+        if not isinstance(x, dict):
+            continue
+        for l, kind, nn in writes(x):
+            l_ = strip_casts(l)
+            if kind == "assign" and l_.get("k") == "mem" and l_.get("f") == "t" and l_.get("arrow") and lv(strip_casts(cfg.resolve(nn["r"]))) == tparam:
+                binds.append((b, i, nn.get("line", line)))
+    rs = call_sites(f, "echs_task_rset_ownr")
+    if not binds:
+        raise AnalysisBroken("R11.10: _inject_task1 no longer binds the submitted task into a record")
+    key = "_inject_task1/owner-reset-before-the-task-is-bound"
+    for b, i, line in binds:
+        ok = any(S.b == b and S.i < i and lv(strip_casts(cfg.resolve(S.node["a"][0]))) == tparam for S in rs) or \
+            (rs and must_pass(cfg, cfg.entry, b, {S.b for S in rs if S.b != b and lv(strip_casts(cfg.resolve(S.node["a"][0]))) == tparam}))
+        if ok:
+            rep.ok(rid, key, f.loc(line), "every path that binds the task has reset its owner to the authenticated uid")
+        else:
+            rep.fail(rid, key, f.loc(line), "a path binds the submitted task into the record without echs_task_rset_ownr(): the owner slot keeps what "
+                     "the client wrote (a login name reads as `no uid`), so the task is listed, checkpointed, replaceable and cancellable by nobody")
+
+
 def _loop_heads(f):
     return set(f.cfg.natural_loops())
 
@@ -1081,6 +1112,8 @@ def run(prog, rep, tier, snap):
     rep.call(r11_8, prog, rep)
     rep.rule("R11.9", "a submission makes a new record only when the table holds none under that UID", 1)
     rep.call(r11_9, prog, rep)
+    rep.rule("R11.10", "the submitted task's owner slot is reset to the authenticated uid before the task is bound into a record", 1)
+    rep.call(r11_10, prog, rep)
 
     from . import c05
     rep.rule("R05.10", "a run-as or owner name inherited from the calendar level is the event's own copy, not freed memory (shared with C05)", 3)
